@@ -72,7 +72,7 @@ def setups(draw, max_cells=60, max_mags=6, max_events=300, lo=-12, hi=3, holes=T
     pool = draw(st.lists(st.tuples(st.integers(0, nc - 1), st.integers(0, nm - 1)), min_size=1, max_size=max(1, min(12, nc * nm))))
     obs = [list(draw(st.sampled_from(pool))) for _ in range(nobs)]
     return {"region": rc, "mags": mc, "rates": rates, "obs": obs, "layout": draw(st.sampled_from(["C", "C", "F", "view"])),
-            "prehistory": draw(st.sampled_from([0, 0, 1, 2, 3])), **({"rate_dtype": rate_dtype} if rate_dtype else {})}
+            "prehistory": draw(st.sampled_from([0, 0, 1, 2, 3, 4, 4, 5, 6, 7])), **({"rate_dtype": rate_dtype} if rate_dtype else {})}
 
 
 # ------------------------------------------------------------------ builders
@@ -110,7 +110,32 @@ class Setup:
         f = GriddedForecast(start_time=T0, end_time=T1, data=data, region=region, magnitudes=numpy.array(self.edges), name=name or self.name)
         if self.case.get("prehistory", 0) & 1:
             self.touch_forecast(f)
+        if self.case.get("prehistory", 0) & 4:
+            self.rejected_requests(f, region)
         return f
+
+    def rejected_requests(self, f, region):
+        """requests the library documents as REJECTED (a point outside the region, a magnitude below the grid, a catalog with an
+        event outside the region), made before the object is used.  Their outcome is not judged here; the legitimate requests
+        that follow must be answered as if these had never been made."""
+        from csep.core.catalogs import CSEPCatalog
+        far_lon, far_lat = float(self.L.ex[0]) - 7.25, float(self.L.ey[0]) - 3.75
+        low = self.edges[0] - 1.0
+        mid = self.edges[0] + self.hm / 2
+        inside = self.event(0, 0, 0)
+        outside = ("out", 1262304000000, far_lat, far_lon, 10.0, mid)
+        for g in (lambda: f.get_rates([far_lon], [far_lat], [mid]),
+                  lambda: f.get_rates([inside[3]], [inside[2]], [low]),
+                  lambda: f.get_magnitude_index(numpy.array([mid, low])),
+                  lambda: region.get_index_of([inside[3], far_lon], [inside[2], far_lat]),
+                  lambda: f.target_event_rates(CSEPCatalog(data=[inside, outside, inside], region=region)),
+                  lambda: CSEPCatalog(data=[inside, outside], region=region).spatial_magnitude_counts(),
+                  lambda: CSEPCatalog(data=[outside, inside], region=region).spatial_counts(),
+                  lambda: CSEPCatalog(data=[outside, inside], region=region).spatial_event_probability()):
+            try:
+                g()
+            except Exception:  # noqa: BLE001
+                pass
 
     @staticmethod
     def touch_forecast(f):
